@@ -96,6 +96,115 @@ func c11IsoCase(q ref.Pt) (key, detail string) {
 	return "", ""
 }
 
+// c11SteeredUs returns inputs u for which a chosen *intermediate value* of the straight-line SSWU (u^2, Z u^2,
+// tv1^2, tv1^2+tv1, that plus 1, B times that, -A(tv1^2+tv1) =: tv4, tv4^2, tv4^3) has Montgomery limbs at a carry
+// boundary of a multiplication by a small constant K (just below and just above ceil(j*2^256/K)): the operand class
+// a hand-written "multiply by a small constant" gets wrong. The intermediate is inverted algebraically (square
+// roots, one cube root); about a quarter of the targets have a preimage, the first few per (site, K, j) are kept.
+func c11SteeredUs() []*big.Int {
+	f, z, a, b := ref.Fp, ref.SSWUZ, ref.Iso.A, ref.Iso.B
+	two := big.NewInt(2)
+	half := f.Inv0(two)
+	bet := beta()
+
+	fromTv1 := func(t *big.Int) []*big.Int { // Z u^2 = t
+		if u := f.Sqrt(f.Mul(t, f.Inv0(z))); u != nil {
+			return []*big.Int{u}
+		}
+
+		return nil
+	}
+	fromTv2 := func(v *big.Int) []*big.Int { // t^2 + t = v
+		d := f.Sqrt(f.Add(big.NewInt(1), f.Mul(big.NewInt(4), v)))
+		if d == nil {
+			return nil
+		}
+
+		var out []*big.Int
+		for _, r := range []*big.Int{d, f.Neg(d)} {
+			out = append(out, fromTv1(f.Mul(f.Sub(r, big.NewInt(1)), half))...)
+		}
+
+		return out
+	}
+	fromTv4 := func(v *big.Int) []*big.Int { return fromTv2(f.Neg(f.Mul(v, f.Inv0(a)))) } // -A tv2 = v
+	roots := func(v *big.Int, g func(*big.Int) []*big.Int) []*big.Int {
+		r := f.Sqrt(v)
+		if r == nil {
+			return nil
+		}
+
+		return append(g(r), g(f.Neg(r))...)
+	}
+
+	sites := []func(*big.Int) []*big.Int{
+		func(t *big.Int) []*big.Int { return fromTv1(f.Mul(t, z)) }, // u^2 = t
+		fromTv1, // Z u^2 = t
+		func(t *big.Int) []*big.Int { return roots(t, fromTv1) }, // tv1^2 = t
+		fromTv2, // tv1^2 + tv1 = t
+		func(t *big.Int) []*big.Int { return fromTv2(f.Sub(t, big.NewInt(1))) },                   // tv2 + 1 = t
+		func(t *big.Int) []*big.Int { return fromTv2(f.Sub(f.Mul(t, f.Inv0(b)), big.NewInt(1))) }, // B (tv2 + 1) = t
+		fromTv4, // tv4 = t
+		func(t *big.Int) []*big.Int { return roots(t, fromTv4) }, // tv4^2 = t
+		func(t *big.Int) []*big.Int { // tv4^3 = t
+			c, ok := cubeRoot(t)
+			if !ok {
+				return nil
+			}
+
+			var out []*big.Int
+			for i := 0; i < 3; i++ {
+				out = append(out, fromTv4(c)...)
+				c = f.Mul(c, bet)
+			}
+
+			return out
+		},
+	}
+
+	var out []*big.Int
+
+	for _, k := range []int64{1771, 11, 21, 3, 2} {
+		js := map[int64]bool{}
+		for _, j := range []int64{1, 2, 3, k / 2, k - 2, k - 1} {
+			if j >= 1 && j <= k-1 {
+				js[j] = true
+			}
+		}
+
+		for j := range js {
+			base := new(big.Int).Mul(big.NewInt(j), ref.Two256())
+			base.Add(base, big.NewInt(k-1)).Div(base, big.NewInt(k)) // ceil(j*2^256/K)
+
+			for _, site := range sites {
+				for _, dir := range []int64{-1, 1} {
+					found := 0
+
+					for d := int64(0); d < 200 && found < 2; d++ {
+						off := dir * (d + 1)
+						if dir == 1 {
+							off = d
+						}
+
+						pat := new(big.Int).Add(base, big.NewInt(off))
+						if pat.Sign() <= 0 || pat.Cmp(ref.P) >= 0 {
+							continue
+						}
+
+						us := site(ref.Unmont(ref.Limbs(pat), ref.P))
+						if len(us) > 0 {
+							found++
+							out = append(out, us[0])
+						}
+					}
+				}
+			}
+		}
+	}
+
+	return out
+}
+
 func c11Us(level int) []*big.Int {
 	set := map[string]*big.Int{}
 	add := func(v *big.Int) {
@@ -125,11 +234,15 @@ func c11Us(level int) []*big.Int {
 		add(s)
 	}
 
-	for _, v := range alpha.Values(ref.P, 2*level) {
+	for _, v := range alpha.WithWitnesses(alpha.Values(ref.P, 2*level), ref.P) {
 		add(v.V)
 	}
 
 	for _, v := range alpha.Fixed(256, "sswu") {
+		add(v)
+	}
+
+	for _, v := range c11SteeredUs() {
 		add(v)
 	}
 
@@ -156,7 +269,7 @@ func C11(r *ev.Report) {
 	}
 
 	us := c11Us(level)
-	r.Rule("SSWU and IsogenySecp256k13iso called directly from the in-module harness on the u alphabet: 0 and +-sqrt(-1/Z) (the three exceptional inputs), 1..2^11 and p-2^11..p-1, limb products, V_p, the RFC vector u values, each with its negation; oracle = generic (non straight-line) SSWU of RFC 9380 6.6.2 and the rational isogeny map of appendix E.1 in math/big; plus the isogeny alone on the points of E' with x' = 0..2047 (both roots) injected raw; non-trivial = all (distinct field elements)")
+	r.Rule("SSWU and IsogenySecp256k13iso called directly from the in-module harness on the u alphabet: 0 and +-sqrt(-1/Z) (the three exceptional inputs), 1..2^11 and p-2^11..p-1, limb products, V_p with the solved members, inputs solved so that an intermediate value of the map sits at a carry boundary of a multiplication by 1771, 11, 21, 3 or 2, the RFC vector u values, each with its negation; oracle = generic (non straight-line) SSWU of RFC 9380 6.6.2 and the rational isogeny map of appendix E.1 in math/big; plus the isogeny alone on the points of E' with x' = 0..2047 (both roots) injected raw; non-trivial = all (distinct field elements)")
 	r.Bound("u_values", len(us))
 	r.States.Add(int64(len(us)))
 
